@@ -417,6 +417,21 @@ func fieldByName(v Val, name string) (Val, bool) {
 			return Val{T: f.T, L: v.L[f.Off : f.Off+f.N]}, true
 		}
 	}
+	// promoted through embedded struct values
+	if st, ok := v.T.Underlying().(*types.Struct); ok {
+		for i := 0; i < st.NumFields(); i++ {
+			if !st.Field(i).Embedded() {
+				continue
+			}
+			if _, isStruct := st.Field(i).Type().Underlying().(*types.Struct); !isStruct {
+				continue
+			}
+			f := l.Fields[i]
+			if r, ok := fieldByName(Val{T: f.T, L: v.L[f.Off : f.Off+f.N]}, name); ok {
+				return r, true
+			}
+		}
+	}
 	return Val{}, false
 }
 
